@@ -537,7 +537,7 @@ Qed.
 
 Definition cstep_m (fin : N -> bool) (w : world) (e : env_ev) : bool :=
   match e with
-  | EAppend b => if fin (w_state w) then rlen (w_output w ++ b) <=? w_size w else true
+  | EAppend b => if fin (w_state w) then rlen (w_output w) + rlen b <=? w_size w else true
   | ESetStatus st sz =>
     if fin st
     then (rlen (w_output w) <=? sz) && (has_file w || (sz =? 0)) &&
@@ -569,7 +569,7 @@ Proof.
     + intro H. destruct (Hw H) as [H1 _]. split; [exact H1|]. intro Hn. rewrite E in Hn. discriminate.
     + intro H. destruct (Hw H) as [H1 _]. split; [|discriminate].
       unfold w_output in *. simpl. now rewrite E in H1.
-  - intro H. rewrite H in Hc. apply N.leb_le in Hc. split; [|discriminate].
+  - intro H. rewrite H in Hc. apply N.leb_le in Hc. rewrite <- rlen_app in Hc. split; [|discriminate].
     unfold w_output at 1. simpl. exact Hc.
   - intro H. rewrite H in Hc.
     apply andb_true_iff in Hc as [Hc _]. apply andb_true_iff in Hc as [H1 H2].
@@ -598,7 +598,7 @@ Proof.
   unfold dinv_m. intros Hc Hd Hph. destruct (Hd Hph) as [Hf [Hem Hsz]]. destruct e; simpl in *.
   - destruct (w_file w) eqn:E; simpl; [now repeat split|]. repeat split; auto.
     rewrite Hem. unfold target, w_output. simpl. now rewrite E.
-  - rewrite Hf in Hc. apply N.leb_le in Hc. repeat split; auto.
+  - rewrite Hf in Hc. apply N.leb_le in Hc. rewrite <- rlen_app in Hc. repeat split; auto.
     rewrite Hem. unfold target.
     change (w_output (mkWorld (Some (w_output w ++ b)) (w_state w) (w_size w))) with (w_output w ++ b).
     symmetry. apply skipn_app_within. rewrite Hem in Hsz. clear Hd. unfold target, rlen in *. lia.
@@ -778,3 +778,10 @@ Proof.
   repeat split; try reflexivity.
   intro H. specialize (H 0 early_end_witness eq_refl eq_refl). vm_compute in H. discriminate H.
 Qed.
+
+(* ---------- the periodic form of the pattern used by the case files ---------- *)
+Lemma pat_cyc_samples :
+  forallb (fun ol => beq_bytes (pat_cyc (fst ol) (snd ol)) (pat (fst ol) (snd ol)))
+          [(0, 1); (64255, 3); (250000, 70000); (1999000, 130000); (64256, 64256); (128511, 64258);
+           (1734376, 265624); (0, 0); (64256, 0)] = true.
+Proof. vm_compute. reflexivity. Qed.
